@@ -370,6 +370,12 @@ class CircuitFinderSat:
             for a, b in itertools.combinations(range(gate), 2):
                 if a != first_predecessor and b != first_predecessor:
                     self._cnf.append([-self._predecessors_variable(gate, a, b)])
+        elif second_predecessor is not None:
+            if not (gate > second_predecessor):
+                raise FixGateOrderError()
+            for a, b in itertools.combinations(range(gate), 2):
+                if a != second_predecessor and b != second_predecessor:
+                    self._cnf.append([-self._predecessors_variable(gate, a, b)])
 
         if gate_type:
             for a, b in itertools.product(range(2), repeat=2):
